@@ -21,6 +21,7 @@ RULE = ("all ordered pairs of transform kinds x dims x {before, after} x {in-pla
 ASSUMPTIONS = ["in-place composition is judged on 'same map, argument unchanged' only; class honesty of an in-place receiver is recorded, not judged",
                "pairs whose dimensionalities do not chain (e.g. WithDims output fed to a 2D warp) are not judged"]
 DECIDING_TAPS = ["compose", "compose_inplace"]
+REPLAY_PATHS = ['menpo/transform/test', 'menpo/image/test']      # suite replay (thorough tier): the repository's own tests under these monitors
 SHARDS = {"quick": 8, "thorough": 16}
 
 _PROBE = {}
